@@ -27,8 +27,19 @@ BIG = 2 ** 30
 
 
 def _query(entry, X, y, cand, seed, variant):
-    qs = entry.make(seed, np.nan, (0, 1))
-    kw = zoo.model_kwargs(entry, np.nan, (0, 1), seed=seed, variant=variant)
+    # one third of the groups present the missing labels with a reserved number instead of NaN (all calls of a
+    # group alike): code that handles one way of addressing the candidates with the configured sentinel and
+    # another with the default one is only visible then
+    ml, cls = np.nan, (0, 1)
+    if seed % 3 == 0:
+        if zoo.is_regression(entry):
+            ml, cls = -999.0, zoo.REG
+            y = np.where(np.isnan(y), ml, y)
+        else:
+            ml = -1
+            y = np.where(np.isnan(y), ml, y).astype(int)
+    qs = entry.make(seed, ml, (0, 1))
+    kw = zoo.model_kwargs(entry, ml, cls, seed=seed, variant=variant)
     np.random.seed(4711)   # hidden use of the global generator is C06's subject
     with warnings.catch_warnings():
         warnings.simplefilter("ignore")
